@@ -1,6 +1,7 @@
 package main
 
 import (
+	"bytes"
 	"fmt"
 	"sort"
 	"strings"
@@ -433,6 +434,112 @@ func c13ServerScenario(ss c13Session, mode string, lo, hi int) Scenario {
 	}}
 }
 
+// c13HeldPayload: a Twrite is held inside the implementation (and, in the cancelled
+// variant, flushed and cancelled by the implementation's FlushOp, so that the framework
+// no longer counts it as outstanding) while the stream goes on for more than the whole
+// receive buffer: small requests, a Tversion in mid-session at every position - alone in
+// its transport write or together with the request behind it - and then larger
+// requests. When the implementation finally looks at the payload it is what the client
+// sent.
+func c13HeldPayload(msize uint32, cancelled, dotu bool) Scenario {
+	name := fmt.Sprintf("held-payload msize=%d cancelled=%v dotu=%v: Tversion at every position of %d bytes of later traffic", msize, cancelled, dotu, 9*msize)
+	return Scenario{Name: name, Run: func(rc *RunCtx) *Result {
+		res := &Result{Exhaustive: true}
+		K := int(8*msize)/11 + 4
+		seen := map[string]bool{}
+		for j := -1; j <= K; j++ {
+			for _, alone := range []bool{true, false} {
+				if j < 0 && !alone {
+					continue
+				}
+				if rc.Expired() {
+					res.Exhaustive = false
+					res.CapHit = "internal deadline"
+					return res
+				}
+				var fail string
+				body := func() {
+					s := newSess(SrvOpt{Msize: msize, Dotu: dotu, Flush: true})
+					if cancelled {
+						s.fs.FlushMode = "cancel"
+						s.fs.NoLateAnswer = true
+					}
+					L := int(msize) - 24
+					s.rpcOK(twalk(s.tag(), 0, 1, "g"), wire.Rwalk)
+					s.rpcOK(&wire.Msg{Type: wire.Topen, Tag: s.tag(), Fid: 1, Mode: 1}, wire.Ropen)
+					s.rpcOK(twalk(s.tag(), 0, 2, "g"), wire.Rwalk)
+					s.rpcOK(&wire.Msg{Type: wire.Topen, Tag: s.tag(), Fid: 2, Mode: 1}, wire.Ropen)
+					data := make([]byte, L)
+					for i := range data {
+						data[i] = byte(0x80 | i)
+					}
+					g := vs.NewSem(0)
+					s.fs.Script[reqKey{0, 50, 0}] = &Action{Gate: g}
+					s.c.Send(dotu, &wire.Msg{Type: wire.Twrite, Tag: 50, Fid: 1, Offset: 7, Data: data})
+					vs.Idle()
+					if cancelled {
+						s.c.Send(dotu, &wire.Msg{Type: wire.Tflush, Tag: 51, Oldtag: 50})
+						vs.Idle()
+					}
+					ver := "9P2000"
+					if dotu {
+						ver = "9P2000.u"
+					}
+					tv := wire.Encode(&wire.Msg{Type: wire.Tversion, Tag: wire.NOTAG, Msize: msize, Version: ver}, false)
+					for i := 0; i <= K; i++ {
+						m := wire.Encode(&wire.Msg{Type: wire.Tstat, Tag: uint16(100 + i), Fid: 0}, dotu)
+						switch {
+						case i == j && alone:
+							s.c.SendRaw(tv)
+							vs.Idle()
+							s.c.SendRaw(m)
+						case i == j:
+							s.c.SendRaw(append(append([]byte{}, tv...), m...))
+						default:
+							s.c.SendRaw(m)
+						}
+						vs.Idle()
+					}
+					for i := 0; i < 12; i++ {
+						s.c.Send(dotu, &wire.Msg{Type: wire.Twrite, Tag: uint16(1000 + i), Fid: 2, Offset: uint64(i), Data: bytes.Repeat([]byte{'Z'}, L-i%3)})
+						vs.Idle()
+					}
+					g.Release()
+					vs.Idle()
+					dataHash := ""
+					for _, e := range s.fs.Log {
+						if e.Conn == 0 && e.Tag == 50 && e.Kind == "data" {
+							dataHash = e.Args
+						}
+					}
+					if dataHash != hashBytes(data) {
+						fail = fmt.Sprintf("the payload of the held Twrite was %s when the implementation looked at it, the client sent %s", dataHash, hashBytes(data))
+					}
+				}
+				x := vs.Run(nil, body, vs.Options{})
+				res.Evals++
+				res.Nontrivial++
+				res.States++
+				res.Traces++
+				res.Transitions += int64(K + 14)
+				if len(x.Panics) > 0 {
+					fail = "panic: " + x.Panics[0].Value
+				} else if len(x.Fails) > 0 && fail == "" {
+					fail = "harness: " + x.Fails[0]
+				}
+				if fail != "" {
+					sig := "C13/held-payload/" + sigWords(fail)
+					if !seen[sig] {
+						seen[sig] = true
+						res.Findings = append(res.Findings, Finding{Sig: sig, Msg: fmt.Sprintf("%s; Tversion before follower %d (alone in its write: %v): %s", name, j, alone, fail)})
+					}
+				}
+			}
+		}
+		return res
+	}}
+}
+
 func c13Scenarios(tier string) []Scenario {
 	var out []Scenario
 	sessions := []c13Session{{msize: 64, dotu: false, nreq: 40, gateEvery: 10, shift: -1}, {msize: 96, dotu: true, nreq: 30, gateEvery: 0, shift: 7}}
@@ -470,6 +577,10 @@ func c13Scenarios(tier string) []Scenario {
 			out = append(out, c13VersionStream(sd, ver, 8216, 256), c13VersionStream(sd, ver, 128, 8216))
 			out = append(out, c13VersionStreamX(sd, ver, 1024, 128, true))
 		}
+	}
+	out = append(out, c13HeldPayload(64, true, false), c13HeldPayload(64, false, true), c13HeldPayload(256, true, true))
+	if tier == "thorough" {
+		out = append(out, c13HeldPayload(256, false, false), c13HeldPayload(96, true, false), c13HeldPayload(1024, true, false))
 	}
 	out = append(out, c13ClientScenarios(tier)...)
 	return out
